@@ -23,6 +23,9 @@ pub enum Form {
     Pipeline(u8),
     /// behavioural: flooding child whose reader goes away must die of SIGPIPE
     FloodSigpipe(u32),
+    /// Popen::create with options: bit 0 setpgid, 1 setuid+setgid (to 0), 2 cwd,
+    /// 3 detached, 4 stdout on a pseudo-terminal, 5 stderr on a pseudo-terminal
+    PopenOptions(u8),
 }
 
 #[derive(Clone, Debug, Serialize, Deserialize)]
@@ -61,6 +64,49 @@ fn do_spawn(case: SigCase, helper: std::path::PathBuf, prefix: std::path::PathBu
                     }
                     Err(e) => return Obs::Error(e.to_string()),
                 },
+                Form::PopenOptions(bits) => {
+                    let mut cfg = PopenConfig { setpgid: bits & 1 != 0, detached: bits & 8 != 0, ..Default::default() };
+                    if bits & 2 != 0 {
+                        cfg.setuid = Some(0);
+                        cfg.setgid = Some(0);
+                    }
+                    if bits & 4 != 0 {
+                        cfg.cwd = Some(std::ffi::OsString::from("/"));
+                    }
+                    // a pseudo-terminal for the child's output (the master stays with us)
+                    let mut master = -1;
+                    if bits & 0x30 != 0 {
+                        let mut slave = -1;
+                        if libc::openpty(&mut master, &mut slave, std::ptr::null_mut(), std::ptr::null_mut(), std::ptr::null_mut()) == 0 {
+                            libc::fcntl(master, libc::F_SETFD, libc::FD_CLOEXEC);
+                            libc::fcntl(slave, libc::F_SETFD, libc::FD_CLOEXEC);
+                            let f = {
+                                use std::os::unix::io::FromRawFd;
+                                std::fs::File::from_raw_fd(slave)
+                            };
+                            if bits & 0x10 != 0 {
+                                cfg.stdout = subprocess::Redirection::File(f.try_clone().unwrap());
+                            }
+                            if bits & 0x20 != 0 {
+                                cfg.stderr = subprocess::Redirection::File(f.try_clone().unwrap());
+                            }
+                        }
+                    }
+                    let r = Popen::create(&[helper.as_os_str()], cfg);
+                    let out = match r {
+                        Ok(mut p) => {
+                            let _ = p.wait();
+                            None
+                        }
+                        Err(e) => Some(Obs::Error(e.to_string())),
+                    };
+                    if master >= 0 {
+                        libc::close(master);
+                    }
+                    if let Some(o) = out {
+                        return o;
+                    }
+                }
                 Form::ExecPopen => match Exec::cmd(&helper).popen() {
                     Ok(mut p) => {
                         let _ = p.wait();
@@ -113,7 +159,7 @@ pub fn check_case(ctx: &Ctx, case: &SigCase, rep: &mut CaseReport) -> CaseResult
     let fail = |sig: &str, msg: String| Err(Fail::new(format!("C18:{}", sig), format!("{}\ncase={:?}", msg, case)));
     if !case.mask.is_empty() || case.sigpipe == Disp::Ignored {
         let mc = if case.mask.is_empty() { "empty" } else if case.mask.contains(&13) { "with-sigpipe" } else if case.mask.iter().any(|s| *s >= 34) { "with-rt" } else { "std" };
-        rep.nontrivial(format!("mask:{}|pipe:{:?}|thread{}|{}", mc, case.sigpipe, case.fresh_thread as u8, match case.form { Form::Pipeline(n) => format!("pipeline{}", n.clamp(2, 5)), Form::FloodSigpipe(_) => "flood".into(), f => format!("{:?}", f) }));
+        rep.nontrivial(format!("mask:{}|pipe:{:?}|thread{}|{}", mc, case.sigpipe, case.fresh_thread as u8, match case.form { Form::Pipeline(n) => format!("pipeline{}", n.clamp(2, 5)), Form::FloodSigpipe(_) => "flood".into(), Form::PopenOptions(b) => format!("options{:02x}", b & 0x3f), f => format!("{:?}", f) }));
     }
     // parent's SIGPIPE disposition
     let old = unsafe {
@@ -172,7 +218,7 @@ pub fn check_case(ctx: &Ctx, case: &SigCase, rep: &mut CaseReport) -> CaseResult
 pub fn case_strategy() -> impl Strategy<Value = SigCase> {
     let sig = prop_oneof![6 => 1u8..32, 1 => Just(13u8), 2 => 34u8..65].prop_filter("blockable", |s| *s != 9 && *s != 19 && *s != 32 && *s != 33);
     let mask = prop_oneof![2 => Just(vec![]), 5 => prop::collection::vec(sig.clone(), 1..6), 1 => prop::collection::vec(sig, 20..60)];
-    let form = prop_oneof![3 => Just(Form::PopenCreate), 2 => Just(Form::ExecPopen), 2 => Just(Form::ExecCapture), 3 => (2u8..6).prop_map(Form::Pipeline), 2 => prop_oneof![Just(1u32), 1u32..200_000].prop_map(Form::FloodSigpipe)];
+    let form = prop_oneof![3 => Just(Form::PopenCreate), 2 => Just(Form::ExecPopen), 2 => Just(Form::ExecCapture), 3 => (2u8..6).prop_map(Form::Pipeline), 2 => prop_oneof![Just(1u32), 1u32..200_000].prop_map(Form::FloodSigpipe), 3 => (1u8..64).prop_map(Form::PopenOptions)];
     (mask, prop_oneof![3 => Just(Disp::Ignored), 1 => Just(Disp::Default), 1 => Just(Disp::Handler)], any::<bool>(), form).prop_map(|(mut mask, sigpipe, fresh_thread, form)| {
         mask.sort();
         mask.dedup();
